@@ -175,7 +175,7 @@ def impl_eager(case):
                 exc = res.exception() if not res.cancelled() else asyncio.CancelledError()
                 r.step([2, C.exc_code(exc)] if exc is not None else [1, C.enc(res.result())], True, False)
                 return r.steps
-            cs = res.cr_frame.f_locals["self"]
+            cs = res._cs if hasattr(res, "_cs") else res.cr_frame.f_locals["self"]
             flags = lambda: (cs.done(), cs.start_result is None)
             r.step(start_outcome(cs.start_result), *flags())
             r.drive(res, case["ops"], flags)
